@@ -12,6 +12,11 @@ Records == UNION {{[k |-> "record", fields |-> [i \in 1..n |-> [n |-> FNames[i],
            \cup {[k |-> "record", fields |-> [i \in 1..3 |-> [n |-> FNames[i], t |-> ts[i]]]] :
                      ts \in [1..3 -> IF Big THEN FT ELSE {B("int"), B("string"), <<"slice", B("int")>>}]}
 
+\* records of an `and` group: 2-3 fields, at least one of a type that is not known yet when the field is read
+GT == {B("int"), B("string"), <<"named", "S@", <<>>>>, <<"slice", <<"named", "S@", <<>>>>>>, <<"slice", <<"named", "R@", <<>>>>>>}
+RecGroups == UNION {{[k |-> "recgroup", fields |-> [i \in 1..n |-> [n |-> FNames[i], t |-> ts[i]]]] :
+                       ts \in {f \in [1..n -> GT] : \E i \in 1..n : f[i] \notin {B("int"), B("string")}}} : n \in 2..3}
+
 PT == {B("int"), B("string"), <<"slice", B("int")>>, <<"tuple", <<B("int"), B("string")>>>>,
        <<"tuple", <<B("int"), <<"tuple", <<B("string"), B("bool")>>>>>>>>, <<"tuple", <<<<"tuple", <<B("int"), B("string")>>>>, B("bool")>>>>}
 CNames == <<"A", "B", "C">>
@@ -29,7 +34,7 @@ Funcs == UNION {{[k |-> "func", params |-> ps, res |-> r] : ps \in [1..n -> AT],
 Vars == {[k |-> "var", t |-> t] : t \in {B("int"), B("string"), B("bool")}}
 
 LamVars == UNION {{[k |-> "lamvar", params |-> ps, res |-> r] : ps \in [1..n -> {B("int"), B("string")}], r \in {B("int"), B("string")}} : n \in 1..2}
-Decls == Records \cup Unions \cup Funcs \cup Vars \cup LamVars
+Decls == Records \cup RecGroups \cup Unions \cup Funcs \cup Vars \cup LamVars
 Rows == {[k |-> d.k, fo |-> Fo(d), asserts |-> Surface(d)] : d \in Decls}
 ASSUME ndJsonSerialize(OutFile, SetToSeq(Rows))
 ASSUME PrintT(<<"CASES", Cardinality(Rows)>>)
